@@ -34,6 +34,7 @@ type vpC35Spec struct {
 	durs    []int64
 	flts    []float64
 	ptrs    []int // 0 nil, 1 false, 2 true
+	presence string
 }
 
 var vpC35Tails = []string{"", " ", "\n", "\r\n", "\t", "\x00", "\xff\xfe\xfd", "\xc3\x28", ": ", " #", "- ", "|", ">", "&a", "*a", "!t", "!!binary x", "%", "@", "`", "'", "\"", "\\", "{", "}", "[", "]", ",", "?", "~", "null", "true", "no", "0x1f", "1e3", ".nan", "2024-01-01", "<<", "---", "...", "\u00a0", "\u0085", "\ufeff", "\u2028", " \n x", "\n\n", "a\n  b\n c", "\x1b[31m", "\x7f", "\x08", "\n ", " \n", "x \n", "\n\t", "\ta\nb"}
@@ -72,8 +73,39 @@ func vpC35GenSpec(t *rapid.T) vpC35Spec {
 	s.nUsers = rapid.IntRange(0, 4).Draw(t, "users")
 	nsec := 2 + 3*s.nPeers + 2*s.nLst + 2*s.nUsers + 5
 	where := rapid.IntRange(0, 2).Draw(t, "markerPos")
+	// which secrets are present: dense, sparse, exactly one, or one group only (a scrubber
+	// that keys its work on some secrets being present must still scrub the others)
+	mode := rapid.SampledFrom([]string{"dense", "dense", "sparse", "single", "group"}).Draw(t, "presence")
+	groupOf := func(i int) int {
+		switch {
+		case i < 2:
+			return 0 // global TLS
+		case i < 2+3*s.nPeers:
+			return 1
+		case i < 2+3*s.nPeers+2*s.nLst:
+			return 2
+		case i < 2+3*s.nPeers+2*s.nLst+2*s.nUsers:
+			return 3
+		}
+		return 4
+	}
+	single := rapid.IntRange(0, nsec-1).Draw(t, "single")
+	group := rapid.IntRange(0, 3).Draw(t, "group") // TLS-ish groups and users; "misc" alone is the dense case's neighbour
+	s.presence = mode
 	for i := 0; i < nsec; i++ {
-		if rapid.IntRange(0, 9).Draw(t, fmt.Sprintf("empty%d", i)) == 0 {
+		present := true
+		switch mode {
+		case "dense":
+			present = rapid.IntRange(0, 9).Draw(t, fmt.Sprintf("empty%d", i)) != 0
+		case "sparse":
+			present = rapid.IntRange(0, 6).Draw(t, fmt.Sprintf("empty%d", i)) == 0
+		case "single":
+			present = i == single
+		case "group":
+			g := groupOf(i)
+			present = g == group || (group == 0 && (g == 1 || g == 2) && (i-2)%3 != 0 && rapid.Bool().Draw(t, fmt.Sprintf("tls%d", i)))
+		}
+		if !present {
 			s.secrets = append(s.secrets, "")
 			continue
 		}
@@ -372,7 +404,7 @@ func TestVP_C35_Redacted(t *testing.T) {
 		if hostile {
 			cl = "hostile-bytes"
 		}
-		st.Case(canon, hostile, cl, fmt.Sprintf("lists=%d", s.nPeers+s.nLst+s.nUsers))
+		st.Case(canon, hostile, cl, fmt.Sprintf("lists=%d", s.nPeers+s.nLst+s.nUsers), "presence-"+s.presence)
 		if err := vpC35Check(s); err != nil {
 			t.Fatalf("VPFAIL C35 %v\n  case: %s", err, clip2(canon))
 		}
